@@ -45,7 +45,10 @@ fn worker(args: &[String]) -> i32 {
     let stride: usize = arg(args, "--stride").map(|s| s.parse().unwrap()).unwrap_or(1);
     let offset: usize = arg(args, "--offset").map(|s| s.parse().unwrap()).unwrap_or(0);
     let timeout_s: u64 = arg(args, "--timeout").map(|s| s.parse().unwrap()).unwrap_or(60);
-    std::panic::set_hook(Box::new(|_| {}));
+    // panics are data (caught around every format call); VH_PANIC=1 prints them, for debugging the harness itself
+    if std::env::var("VH_PANIC").is_err() {
+        std::panic::set_hook(Box::new(|_| {}));
+    }
     let t0 = Instant::now();
     let out = Arc::new(Mutex::new(std::fs::OpenOptions::new().create(true).append(true).open(&outp).expect("open out")));
     // watchdog
@@ -159,7 +162,7 @@ fn replay(args: &[String]) -> i32 {
                     let mut f = std::fs::OpenOptions::new().append(true).open(&part).unwrap();
                     if !timed_out {
                         use std::os::unix::process::ExitStatusExt;
-                        writeln!(f, "{}", json!({"ev": "Crash", "idx": b, "signal": st.signal(), "code": st.code()})).unwrap();
+                        writeln!(f, "{}", json!({"ev": "Crash", "idx": b, "signal": st.signal().unwrap_or(0), "code": st.code().unwrap_or(-1)})).unwrap();
                     }
                     writeln!(f, "{}", json!({"ev": "End", "idx": b})).unwrap();
                     skip = b as usize + 1;
@@ -233,7 +236,10 @@ fn main() {
         }
         Some("libfmt") => {
             // stdin: JSON lines {id, src, cfg, range?, verify?}; stdout: JSON lines {id, outcome, out}
-            std::panic::set_hook(Box::new(|_| {}));
+            // panics are data (caught around every format call); VH_PANIC=1 prints them, for debugging the harness itself
+    if std::env::var("VH_PANIC").is_err() {
+        std::panic::set_hook(Box::new(|_| {}));
+    }
             let stdin = std::io::stdin();
             let stdout = std::io::stdout();
             let mut o = stdout.lock();
